@@ -16,7 +16,7 @@ shutil.rmtree(corpus, ignore_errors=True); os.makedirs(corpus)
 art = f"{base}/target/fuzz-artifacts-{prop}-{target}/"
 shutil.rmtree(art, ignore_errors=True); os.makedirs(art)
 # seed corpus: the regression cases (golden programs) of the engine
-eng = "conc" if target == "fz_conc" else "seq"
+eng = {"fz_conc": "conc", "fz_seq": "seq", "fz_lock": "lock"}[target]
 n = 0
 for f in sorted(glob.glob(f"/verif/regressions/{eng}/*.json")):
     try:
@@ -67,8 +67,8 @@ if viol:
         json.dump({"property": prop, "engine": eng, "case": case, "profile": "ALL" if eng == "conc" else None, "tier": "quick" if eng == "conc" else "thorough", "predicate": "fuzz:" + kind, "from": f"libFuzzer {target}", "violations": [{"predicate": kind, "signature": f"{prop}/fuzz", "detail": detail[:2000]}]}, open(rp, "w"), indent=1)
         mine = True
         if kind == "oracle":
-            exe = f"/verif/target/release/{eng}"
-            r = subprocess.run([exe, "replay", prop, rp], capture_output=True, text=True, env=env)
+            exe = f"/verif/target/release/{'conc' if eng == 'lock' else eng}"
+            r = subprocess.run([exe, "lockreplay" if eng == "lock" else "replay", prop, rp], capture_output=True, text=True, env=env)
             mine = r.returncode == 1
         if mine:
             print(f"VIOLATION property={prop} replay={rp}")
